@@ -33,6 +33,7 @@ func main() {
 	bounds := flag.String("bounds", "", "debug: run the K-BOUNDS length dataflow on function specs (comma separated), numberenc/binary readers only")
 	dumpAnchors := flag.Bool("dump-anchors", false, "print, as JSON, the unexported function anchors of all properties with their callers and those callers' unexported callees (input of props/anchors_frozen.go)")
 	vocab := flag.String("vocab", "", "with -dump-anchors: file of identifiers that rules use inside patterns; unexported functions and fields of those names are frozen too")
+	idiomCensus := flag.Bool("idiom-census", false, "debug: list every hit of the generic defect idioms in the module")
 	mergeCensus := flag.Bool("merge-census", false, "debug: list every two-cursor merge loop with the verdict of the merge-progress idiom")
 	siblings := flag.String("siblings", "", "debug: compare the call/guard profiles of a family of sibling functions (comma separated specs)")
 	flag.Parse()
@@ -195,6 +196,18 @@ func main() {
 		}
 		b, _ := json.MarshalIndent(map[string]any{"funcs": out, "fields": fields, "structs": structs}, "", " ")
 		fmt.Println(string(b))
+		return
+	}
+	if *idiomCensus {
+		prog, err := an.Load(*repo)
+		if err != nil {
+			fmt.Println(err)
+			os.Exit(2)
+		}
+		prog.DisableInline = true
+		for _, l := range props.IdiomCensus(&an.Ctx{P: prog, Prop: "census", Tier: "quick", Start: time.Now(), VerifDir: *verif, Extra: map[string]any{}}) {
+			fmt.Println(l)
+		}
 		return
 	}
 	if *mergeCensus {
